@@ -340,7 +340,7 @@ func isSelOf(n ast.Node, id *ast.Ident) bool {
 func useIsGuarded(c *Ctx, u varUse) bool {
 	info := u.pkg.TypesInfo
 	fc := newFnCFG(u.body, info)
-	if len(fc.heldAt(u.id)) > 0 {
+	if len(normHeld(fc.heldAt(u.id), u.write)) > 0 {
 		return true
 	}
 	// callee-requires-lock: every static caller in the package holds a mutex at the call
@@ -359,7 +359,7 @@ func useIsGuarded(c *Ctx, u varUse) bool {
 				if cfc == nil {
 					cfc = newFnCFG(fd.Body, info)
 				}
-				if len(cfc.heldAt(call)) == 0 {
+				if len(normHeld(cfc.heldAt(call), u.write)) == 0 {
 					okAll = false
 				}
 			}
